@@ -339,6 +339,10 @@ func checkC04(p *Prog, r *Report) {
 		r.Check(ok, what, p.Pos(f.Body.Pos()), strings.Join(order, ","), f.Name+" does "+strings.Join(order, ",")+": the Closed notification (issued by the loop's close callback) must be enqueued before the notifiers are closed")
 	}
 
+	// ---- R4.8 Checking is entered once by a start -----------------------------------------------------------
+	r.Rule("R4.8", "The start task, which moves the agent to Checking unconditionally, runs at most once: the 'already started?' test and the submission of the task are one critical section (rule of C10 R10.3), so an overlapping second start cannot push a Connected agent back to Checking without a Restart.", 2)
+	checkStartAtomic(p, r)
+
 	// ---- R4.4 timing function -------------------------------------------------------------
 	r.Rule("R4.4", "connectionStateForDisconnection(silence, total) is the documented table: Connected up to the disconnected timeout, Disconnected beyond it, Failed beyond total (reported once as Disconnected first when the disconnected timeout is enabled and not yet reported); zero disables either; total = failed + disconnected, zero iff the failed timeout is zero; the initial checking deadline likewise (lite default).", 12)
 	csd := p.Fn("Agent.connectionStateForDisconnection")
